@@ -631,12 +631,19 @@ def parse_template(path, seen=None):
         i += 1
 
 
-def assemble(template_path, canary=None):
-    """Return (list[Line], list[info])."""
+def assemble(template_path, canary=None, extra_items=()):
+    """Return (list[Line], list[info]).  extra_items: (src, selector) pairs of items the real code started to
+    reference (new helper const/fn): extracted verbatim, without contract, and placed before the closing
+    `} // verus!` of the template."""
     out = []
     infos = []
     gsubs = []
-    for kind, val in parse_template(template_path):
+    events = list(parse_template(template_path))
+    if extra_items:
+        idx = max(i for i, (k, v) in enumerate(events) if k == "line" and v.text.strip().startswith("} // verus!"))
+        extra = [("extract", Extraction(src, sel, "<auto-resolved>", 0)) for src, sel in extra_items]
+        events = events[:idx] + extra + events[idx:]
+    for kind, val in events:
         if kind == "line":
             out.append(val)
         elif kind == "gsub":
